@@ -542,11 +542,32 @@ def r7_one_to_many(ctx) -> None:
             else:
                 r.violation("C12.R7", q, short(c, 100), "alternatives built by the transformation are not OR-linked: a SigmaDetection of detection items defaults to AND, so a one-to-many mapping would require all mapped fields to match", loc)
     f = prog.func(TR + ".detection_item.DropDetectionItemTransformation.apply_detection")
-    src = unparse(f.node)
-    if "super().apply_detection(detection)" in src and "detection.detection_items = list(filter(lambda d: not isinstance(d, DeleteSigmaDetectionItem), detection.detection_items))" in src:
-        r.ok("C12.R7", f.qual, "marked items are filtered out of detection_items after the walk", f.loc)
+    # interpreted (sa.tabulate, Proxy) on a detection [A, B, [C, D]] where the items A and C are to be dropped
+    from ..tabulate import Proxy as _Pd, call_method as _cmd, Raised as _Rd
+    DROP = TR + ".detection_item.DropDetectionItemTransformation"
+    class SigmaDetectionItem:
+        def __init__(self, n, drop=False): self.n, self.drop, self.field, self.value, self.modifiers, self.original_value = n, drop, "f", ["v"], [], ["v"]
+        def disable_conversion_to_plain(self): pass
+        def __repr__(self): return self.n
+    class DeleteSigmaDetectionItem(SigmaDetectionItem):
+        @classmethod
+        def create(cls): return cls("<deleted>")
+    class SigmaDetection:
+        def __init__(self, items): self.detection_items = list(items)
+    envd = {"SigmaDetectionItem": SigmaDetectionItem, "DeleteSigmaDetectionItem": DeleteSigmaDetectionItem, "SigmaDetection": SigmaDetection}
+    inner_d = SigmaDetection([SigmaDetectionItem("C", True), SigmaDetectionItem("D")])
+    det_d = SigmaDetection([SigmaDetectionItem("A", True), SigmaDetectionItem("B"), inner_d])
+    me_d = _Pd(prog, DROP, envd, {"processing_item": None, "_pipeline": None, "processing_item_applied": lambda d_: None,
+                                  "apply_detection_item": lambda it_: DeleteSigmaDetectionItem("<deleted>") if it_.drop else None}, interp_kwargs={"max_steps": 8000})
+    try:
+        _cmd(prog, DROP, "apply_detection", me_d, envd, det_d, interp_kwargs={"max_steps": 8000})
+        got_d = ([repr(x) if not isinstance(x, SigmaDetection) else [repr(y) for y in x.detection_items] for x in det_d.detection_items])
+    except _Rd as ex:
+        got_d = f"raises {ex}"
+    if got_d == ["B", ["D"]]:
+        r.ok("C12.R7", f.qual, "marked items are filtered out of detection_items after the walk, nested detections included (interpreted)", f.loc)
     else:
-        r.violation("C12.R7", f.qual, "detection.detection_items = list(filter(...DeleteSigmaDetectionItem...))", "dropped items stay in the detection", f.loc)
+        r.violation("C12.R7", f.qual, "detection.detection_items = list(filter(...DeleteSigmaDetectionItem...))", f"dropped items stay in the detection: [A(drop), B, [C(drop), D]] becomes {got_d}", f.loc)
     r.floor("C12.R7", 3)
 
 
